@@ -4,7 +4,7 @@ the property's monitors (failing-input search), replays every recorded trace thr
 import collections
 import random
 
-from .. import batch, machine
+from .. import batch, histmachine, machine
 from ..coqrun import run_cases
 
 
@@ -13,11 +13,13 @@ def seeds_for(ctx, n, salt=0):
     return [rng.randrange(1, 2 ** 31) for _ in range(n)]
 
 
-def run_whole(ctx, pid, n, mons=None, force=None, nontrivial=None, machine_replay=True, salt=0, rule="", extra=None, forces=None):
+def run_whole(ctx, pid, n, mons=None, force=None, nontrivial=None, machine_replay=True, salt=0, rule="", extra=None, forces=None, hist_replay=False):
     """forces: optional list of (weight, force-dict) to mix generator emphases; returns the res dict of hv.check"""
     mons = mons or [pid]
     seeds = seeds_for(ctx, n, salt)
     ex = {"case": machine.case_of} if machine_replay else {}
+    if hist_replay:
+        ex["hcase"] = histmachine.case_of
     if extra:
         ex.update(extra)
     results = []
@@ -35,6 +37,7 @@ def run_whole(ctx, pid, n, mons=None, force=None, nontrivial=None, machine_repla
     sigs = set()
     crashes = 0
     terms, owners = [], []
+    hterms, howners = [], []
     evals = 0
     for r in results:
         if r.get("crash"):
@@ -71,6 +74,15 @@ def run_whole(ctx, pid, n, mons=None, force=None, nontrivial=None, machine_repla
                 disagreements.append({"what": f"trace of seed {r['seed']} cannot be expressed as machine events: {c['inexpressible'][-300:]}", "seed": r["seed"], "spec": r["spec"]})
             else:
                 dist["machine-skip"] += 1
+        hc = r.get("hcase")
+        if hc:
+            if "term" in hc:
+                hterms.append(hc["term"])
+                howners.append((r, hc))
+            elif "inexpressible" in hc:
+                disagreements.append({"what": f"history machine, seed {r['seed']}: {hc['inexpressible'][-400:]}", "seed": r["seed"], "spec": r["spec"]})
+            else:
+                dist["hist-skip:" + hc.get("skip", "?")[:30]] += 1
         if len(samples) < 4 and r["sig"] is not None:
             samples.append({"seed": r["seed"], "engines": eng, "gsc": r["spec"]["gsc"], "sprout": r["spec"]["sprout"].get("generator", r["spec"]["sprout"]["kind"]),
                             "stats": r["stats"], "maximize": r["spec"]["maximize"], "hibernation": r["spec"]["hibernation"]})
@@ -85,11 +97,23 @@ def run_whole(ctx, pid, n, mons=None, force=None, nontrivial=None, machine_repla
                 replayed += 1
                 if d:
                     disagreements.append({"what": f"HMS machine vs implementation, seed {r['seed']}: {d}", "seed": r["seed"], "spec": r["spec"]})
-    return {"evaluations": len(results), "distinct_nontrivial": len(sigs), "traces_validated_against_impl": replayed,
+    hreplayed, hgens = 0, 0
+    if hist_replay and hterms:
+        out, err = run_cases(pid + "-hist", histmachine.HEADER, hterms, shard=max(2, (len(hterms) + 15) // 16))
+        if out is None:
+            disagreements.append({"what": "history machine replay failed to evaluate: " + err[-500:]})
+        else:
+            for (r, c), got in zip(howners, out):
+                d = histmachine.compare(c["expected"], got)
+                hreplayed += 1
+                hgens += c["meta"]["generations"]
+                if d:
+                    disagreements.append({"what": f"history machine vs implementation, seed {r['seed']}: {d}", "seed": r["seed"], "spec": r["spec"]})
+    return {"evaluations": len(results), "distinct_nontrivial": len(sigs), "traces_validated_against_impl": max(replayed, hreplayed),
             "rule": rule or "generated whole-run configurations (hv/gen.py: engines x height 1-3 x GSC x sprout mechanism x direction x hibernation x awkward boxes); "
                             "distinct by (engines, GSC kind, generator, direction, hibernation, #demes, #sprouts, #metaepochs); non-trivial = at least one deme was sprouted",
             "samples": samples, "violations": violations, "disagreements": disagreements[:20],
-            "distribution": dict(dist), "notes": {"objective_evaluations_observed": evals, "harness_crashes": crashes, "results": None}, "_results": results}
+            "distribution": dict(dist), "notes": {"objective_evaluations_observed": evals, "harness_crashes": crashes, "machine_traces_replayed": replayed, "history_traces_replayed": hreplayed, "generations_rebuilt_in_coq": hgens}, "_results": results}
 
 
 def replay_whole(ctx, data, pid):
@@ -112,10 +136,10 @@ COMMON_NOTE = ("Theorems are about the hand-written executable HMS machine (coq/
 
 
 def install(g, pid, *, text, note, technique, quick, thorough, mons=None, forces=None, nontrivial=None, rule="", extra_checks=None,
-            front_ends=(), explanation="", assumptions=(), machine_replay=True):
+            front_ends=(), explanation="", assumptions=(), machine_replay=True, hist_replay=False):
     """fills a property module's namespace with run / replay / MANIFEST for a whole-run property"""
     def run(ctx):
-        res = run_whole(ctx, pid, ctx.n(quick, thorough), mons=mons or [pid], forces=forces, nontrivial=nontrivial, rule=rule, machine_replay=machine_replay)
+        res = run_whole(ctx, pid, ctx.n(quick, thorough), mons=mons or [pid], forces=forces, nontrivial=nontrivial, rule=rule, machine_replay=machine_replay, hist_replay=hist_replay)
         results = res.pop("_results")
         if extra_checks:
             for fn in extra_checks:
@@ -141,3 +165,7 @@ def install(g, pid, *, text, note, technique, quick, thorough, mons=None, forces
     g["EXPLANATION"] = explanation or text
     g["ASSUMPTIONS"] = list(assumptions)
     g["MANIFEST"] = {"text": text, "note": note + " " + COMMON_NOTE, "technique": technique}
+
+HIST_NOTE = ("History theorems are about the hand-written executable history machine (coq/Model/Hist.v), which REBUILDS every generation from the sources named by the events "
+             "(carried from the previous generation / evaluated by the deme since it was completed / the seed); the tie: every recorded run is converted (genomes interned, exact "
+             "bit equality; hv/histmachine.py) and replayed by vm_compute, an individual that has no such source makes the trace inexpressible and is reported as the witness.")
